@@ -87,10 +87,10 @@ def npz_event(darsia, rng, cfg, tid, work):
     return e
 
 
-def bytes_event(darsia, rng, fmt, bits, layout, tid):
+def bytes_event(darsia, rng, fmt, bits, layout, tid, shape=None):
     import cv2
     dt = np.uint8 if bits == 8 else np.uint16
-    H, W = rng.randint(2, 4), rng.randint(2, 4)
+    H, W = shape or (rng.randint(2, 4), rng.randint(2, 4))
     top = 250 if bits == 8 else 60000
     if layout == "colour":
         arr = (np.arange(H * W * 3).reshape(H, W, 3) * 37 % top).astype(dt)
@@ -312,6 +312,9 @@ def run(ck, replay=None):
         for bits in (8, 16):
             for layout in ("grey", "single", "colour"):
                 events.append(bytes_event(darsia, rng, fmt, bits, layout, f"bytes:{fmt}:{bits}:{layout}"))
+                # ... and the smallest images: one pixel along an axis, a single pixel
+                thin = [(1, 3), (4, 1), (1, 1)][len(events) % 3]
+                events.append(bytes_event(darsia, rng, fmt, bits, layout, f"bytes:{fmt}:{bits}:{layout}:{thin[0]}x{thin[1]}", shape=thin))
     for bits in (8, 16):
         for rep in range(2 if quick else 10):
             events.append(write_event(darsia, rng, bits, f"write:{bits}:{rep}", work))
